@@ -19,7 +19,7 @@ import (
 func TestMain(m *testing.M) { hx.Main(m) }
 
 type spec struct {
-	Kind   string `json:"kind"` // mix | cap | nogrowth | reset | syncfail | pairbusy | capfine | realrestart | flakypeer | aged | multi | wrongpeer
+	Kind   string `json:"kind"` // mix | cap | nogrowth | reset | syncfail | pairbusy | capfine | realrestart | flakypeer | aged | multi | wrongpeer | midsend
 	Proto  string `json:"proto"`
 	RMs    int    `json:"reconnect_ms"`
 	MaxMs  int    `json:"max_ms"`
@@ -30,6 +30,7 @@ type spec struct {
 	Tr     string `json:"tr,omitempty"`     // flakypeer: transport
 	AgeMs  int    `json:"age_ms,omitempty"` // aged: how old the dialers are when they have to connect again
 	Status int    `json:"status,omitempty"` // wrongpeer: what the HTTP front end of a T phase answers
+	Ctx    bool   `json:"ctx,omitempty"`    // midsend, REQ: the requests are made on a context opened on the socket
 }
 
 // mixProtos: the protocol of the dialling socket in the scripted cases.  Half of the cases keep the
@@ -152,6 +153,9 @@ func TestC14(t *testing.T) {
 	// wrongpeer (wrongpeer_test.go): the address is served in turn by peers that turn the dialer away
 	// (wrong protocol, bad SP version, HTTP error status ...) and by the right peer; real transports and inproc.
 	cases = append(cases, wrongPeerSpecs(rnd, r.Pick(36, 1200))...)
+	// midsend (midsend_test.go): the connection is lost while the transport write of a message is in
+	// progress.  Appended last: the indices of the cases above do not depend on it.
+	cases = append(cases, midsendSpecs(rnd, r.Pick(54, 1800))...)
 	r.Run(cases, func(c *mon.Case) {
 		sp := c.Spec.(spec)
 		if sp.Kind == "flakypeer" {
@@ -187,6 +191,14 @@ func TestC14(t *testing.T) {
 			}
 			runWrongPeer(c, sp)
 			c.Sig("wrongpeer|%s|%s|%d|%d|%v|%s|%d|%s", sp.Tr, sp.Proto, sp.RMs, sp.MaxMs, sp.Async, sp.Script, sp.Status, sp.End)
+			return
+		}
+		if sp.Kind == "midsend" {
+			if sp.Yield {
+				hx.SetYields(c.Rand.Int63(), &hx.YieldCfg{ProbGosched: 0.25, ProbSleep: 0.15, MaxSleep: 300 * time.Microsecond})
+				defer hx.SetYields(0, nil)
+			}
+			runMidSend(c, sp)
 			return
 		}
 		if sp.Kind == "realrestart" {
